@@ -517,6 +517,25 @@ pub fn run(tier: Tier) -> i32 {
         total_traces += traces;
     }
     let distinct = outcomes.lock().unwrap().len();
+    // every row of the device table: labels of the data segment start at that row's RAM start
+    // (the name on the .device line selects exactly that row)
+    let mut n_rows = 0u64;
+    for d in sut::devices().iter() {
+        // (parts without RAM: the labels alone)
+        let (r1, r2, fill) = if d.ram_size >= 4 { (".byte 3", ".byte 1", 4u32) } else { ("", "", 0) };
+        let src = format!(".device {}\n.dseg\nv_one: {}\nv_two: {}\n.cseg\nc_one: nop\n.dw v_one, v_two, c_one\n", d.name, r1, r2);
+        let o = sut::build_str(&src);
+        n_rows += 1;
+        let want: Vec<u8> = [0u16, d.ram_start as u16, d.ram_start as u16 + if fill > 0 { 3 } else { 0 }, 0].iter().flat_map(|w| w.to_le_bytes()).collect();
+        let bad = match &o {
+            Outcome::Ok(b) if b.code == want && b.ram_filling == fill => None,
+            Outcome::Ok(b) => Some(format!("label table {} (ram_filling {}), expected {} (RAM starts at {:#x}, ram_filling {})", sut::hex(&b.code), b.ram_filling, sut::hex(&want), d.ram_start, fill)),
+            other => Some(format!("the build fails: {}", other.brief())),
+        };
+        if let Some(what) = bad {
+            rep.violation(&format!("C02/root=ram-start-of-the-selected-row/device={}", d.name), || what, || json!({"kind": "build_str", "source": src, "expected": {"result": "ok", "code": sut::hex(&want)}, "observed": o.to_json()}));
+        }
+    }
     rep.guard(n_ok.load(Ordering::Relaxed) > 1000 && n_err.load(Ordering::Relaxed) > 100, "need both Ok and Err outcomes");
     rep.guard(distinct > 1000, "fewer than 1000 distinct observed images");
     for c in ["instruction", "db", "dw-dd-dq", "byte", "org", "org-expr", "byte-expr", "org0-start", "org-back", "segment"] {
